@@ -60,7 +60,7 @@ structure FitCfg (c : Cfg) (n B Dn : Nat) : Prop where
   narrow : ∀ needed K r, 0 < needed → needed ≤ K + 1 →
     needed + 1 + c.narrowExtra needed + c.narrowMul * (r % needed) ≤ 3 * K + 5
   /-- growth of a bitmap table without room holding at most `K` keys -/
-  grow : ∀ cap K r, 0 < cap → cap ≤ K + slack c cap → cap + 1 + r % cap ≤ 3 * K + 5
+  grow : ∀ cap K r, 0 < cap → cap ≤ K + slack c cap → cap + 1 + c.growExtra cap + r % cap ≤ 3 * K + 5
   /-- bitmap table without room → dense -/
   bitmap_dense : ∀ cap bits mx, B ≤ bits → cap > mx >>> 6 → cap ≤ keysMax n bits + slack c cap → c.denseCap mx ≤ Dn
 
@@ -321,7 +321,7 @@ theorem insertBitmap_fit (ok : CfgOK c) (fc : FitCfg c n B Dn) (g : Rng D)
               rebuild c rec (denseWithMax c mx) (.heap sz cap bits a) e
             else do
               let r ← drawM c g cap bits
-              let new ← withCapBits c g (cap + 1 + (r % cap)) bits
+              let new ← withCapBits c g (cap + 1 + c.growExtra cap + (r % cap)) bits
               rebuild c rec new (.heap sz cap bits a) e) d = .ok ((r', b), d') := by
           unfold insertBitmap at h
           rw [if_neg hcab] at h
